@@ -94,3 +94,57 @@ SB_OP(stats)
     if (rcb == SB_SUCCESS)
         sb_trajectory_destroy(&tb);
 }
+
+// statsseq <hex> <hex> ... : the files (all of the same length) are loaded one after the other - from memory out of ONE
+// caller buffer that is overwritten in place (the next drone's upload), and through a descriptor after the previous
+// trajectory was destroyed (the allocator may hand the same block out again) - and the box is asked each time
+SB_OP(statsseq)
+{
+    std::vector<std::vector<uint8_t>> files;
+    for (size_t i = 2; i < t.size(); i++)
+        files.push_back(unhex(t[i]));
+    if (files.empty())
+        return;
+    ExactBuf buf(files[0]);
+    // phase 1: the memory route, one caller buffer; phase 2: the descriptor route (no other box query in between, so a
+    // result remembered from the previous trajectory would be visible)
+    std::vector<std::string> A(files.size()), B(files.size());
+    std::vector<int> rcms(files.size(), -1), rcfs(files.size(), -1);
+    for (size_t i = 0; i < files.size(); i++) {
+        if (files[i].size() != buf.n)
+            continue;
+        memcpy(buf.p, files[i].data(), buf.n);
+        sb_trajectory_t tm;
+        memset(&tm, 0, sizeof(tm));
+        sb_error_t rcm = sb_trajectory_init_from_binary_file_in_memory(&tm, buf.p, buf.n);
+        rcms[i] = (int)rcm;
+        if (rcm == SB_SUCCESS) {
+            A[i] = answer(&tm, "B");
+            sb_trajectory_destroy(&tm);
+        }
+    }
+    for (size_t i = 0; i < files.size(); i++) {
+        if (files[i].size() != buf.n)
+            continue;
+        sb_trajectory_t tf;
+        memset(&tf, 0, sizeof(tf));
+        int fd = make_fd(files[i]);
+        sb_error_t rcf = sb_trajectory_init_from_binary_file(&tf, fd);
+        close(fd);
+        rcfs[i] = (int)rcf;
+        if (rcf == SB_SUCCESS) {
+            B[i] = answer(&tf, "B");
+            sb_trajectory_destroy(&tf);
+        }
+    }
+    for (size_t i = 0; i < files.size(); i++) {
+        if (files[i].size() != buf.n) {
+            add(out, "len");
+            continue;
+        }
+        std::string s = std::to_string(rcms[i]) + "," + std::to_string(rcfs[i]);
+        if (rcms[i] == 0 && rcfs[i] == 0)
+            s += "," + A[i] + "," + (A[i] == B[i] ? "=" : "!");
+        add(out, s);
+    }
+}
